@@ -191,6 +191,7 @@ type FnCtx struct {
 	headFresh  map[string]bool
 	loopEntry  map[int]*State
 	declSetN   int
+	noSafety   int // > 0: inside a helper executed in place whose body calls unmodelled code
 }
 
 // nameScope resolves identifiers of a contract clause.
